@@ -294,6 +294,15 @@ func c20Frames(c *core.Collector, x *Ctx) {
 			},
 			"one option slice reused": nil,
 		}
+		mk["custom header object per simulator"] = func(k int) *terminal.Terminal {
+			// a header decoded from a frame of the terminal's own (what WithCustomHeader is for): 2019 layout, its own phone
+			m := jt808.NewJTMessage()
+			bcd := svc.PhoneBCD(fmt.Sprintf("1390000%04d", 100+k), 10)
+			if err := m.Decode(ref.Build(ref.Params{ID: 0x0002, V2019: true, VersionByt: 1, BCD: bcd, Serial: uint16(500 * k)})); err != nil {
+				return terminal.New()
+			}
+			return terminal.New(terminal.WithCustomHeader(m.Header))
+		}
 		shared := []terminal.Option{terminal.WithHeader(c20Versions[len(c20Versions)-1], "13800008888")}
 		mk["one option slice reused"] = func(k int) *terminal.Terminal { return terminal.New(shared...) }
 		var kinds []string
@@ -322,6 +331,10 @@ func c20Frames(c *core.Collector, x *Ctx) {
 				rf, ok := ref.Validate(f)
 				if f == nil || !ok {
 					continue
+				}
+				if kd == "custom header object per simulator" && !bytes.Equal(rf.BCD, svc.PhoneBCD(fmt.Sprintf("1390000%04d", 100+k), 10)) {
+					c.Violate("frame|a simulator with a custom header frames with another phone number", fmt.Sprintf("simulator %d: %x", k, rf.BCD), map[string]any{"built": kd, "terminal": k})
+					break
 				}
 				if prev[k] >= 0 && int(rf.Serial) != (prev[k]+1)%65536 {
 					c.Violate("frame|simulators generating frames in turn do not number their frames independently", fmt.Sprintf("%s: simulator %d: previous %d, now %d", kd, k, prev[k], rf.Serial), map[string]any{"built": kd, "terminal": k})
